@@ -1,4 +1,5 @@
 import AbraModel.Sched
+import AbraModel.MiniVM
 import AbraModel.Drv.Util
 /-
 Driver for M4 `Sched`: trace validation of the scheduler.
@@ -112,6 +113,30 @@ def handleSched : List String → String
     | some calls, some (main :: others) =>
       ";".intercalate (runCalls (main :: others) calls (Runtime.new main) [])
     | _, _ => "bad-op"
+  | _ => "bad-op"
+
+/-- `hostcall <n> <result> <a1,a2,…|->`: the MiniVM program `push a1 … push ak; HostFunc(n); Stop` is run
+    until the host call is pending; the binding (arity k) pops the arguments and pushes `result`.
+    Answer: `seen <n> <args in parameter order> top <value on top when execution resumes>`. -/
+def handleHostCall : List String → String
+  | [n, res, args] =>
+    match n.toNat?, res.toInt?, (if args = "-" then some [] else (args.splitOn ",").mapM String.toInt?) with
+    | some n, some res, some args =>
+      let prog := args.map MiniVM.Instr.pushInt ++ [MiniVM.Instr.hostFunc n, MiniVM.Instr.stop]
+      let r0 : Runtime MiniVM.St Int String := Runtime.new ⟨0, []⟩
+      let x := runN (MiniVM.stepI prog) (args.length + 5) r0
+      match x.status with
+      | .pendingHost =>
+        let y := serviceAll (MiniVM.echoHost (fun _ => args.length) (fun _ _ => res)) [] x.rt
+        match y.1, y.2.runQueue with
+        | [(m, seen)], [t] =>
+          let a := if seen.isEmpty then "-" else ",".intercalate (seen.map toString)
+          match t.st.stack.getLast? with
+          | some v => s!"seen {m} {a} top {v}"
+          | none => "empty-stack"
+        | _, _ => "bad-service"
+      | _ => "not-pending"
+    | _, _, _ => "bad-op"
   | _ => "bad-op"
 
 end Abra.Drv
